@@ -307,8 +307,11 @@ func C16(tier string) int {
 							}
 							seen := map[string]bool{}
 							for _, m := range gmodel.Diff(env.w.Observe(u), obs) {
-								if seen[m.Comp] || m.Comp == "label-scan" || m.Comp == "vlabels" || m.Comp == "elabels" {
-									continue // the label index never shrinks: C03's known finding, not charged here
+								if seen[m.Comp] {
+									continue
+								}
+								if (m.Comp == "label-scan" || m.Comp == "vlabels" || m.Comp == "elabels") && listDirection(m.Want, m.Got) == "extra" {
+									continue // the label index never shrinks (stale EXTRA entries): C03's known finding, not charged here; a MISSING entry is
 								}
 								seen[m.Comp] = true
 								run.Report(vf.Violation{Sig: fmt.Sprintf("%s|%s|delete-of-%s-with-%s-present|%s|%s", pos, via, atomName(a), atomName(b), m.Comp, listDirection(m.Want, m.Got)),
